@@ -9,6 +9,7 @@ import (
 	"golang.org/x/tools/go/ssa"
 
 	"waspcheck/internal/core"
+	"waspcheck/internal/report"
 )
 
 // ---- C13-R6: the failed peer's session records outlive the will publication window ----
@@ -764,4 +765,153 @@ func (c *Ctx) ruleHandOverHasNoDeadline(id string) {
 		}
 	}
 	ru.Anchor(n > 0, "a call of Writer.Schedule in the module")
+}
+
+// ruleWorkerServesEveryRequest implements C14-R8 (every request a publish worker takes is distributed) and C18-R9 (a
+// publish worker ends only when its context ends). The twenty workers are shared by all clients: a worker that returns
+// on a failure branch is gone for good (twenty such inputs and no publish or will is ever processed again), and a
+// request dropped before Distribute is a publish that reaches no node's log.
+func (c *Ctx) ruleWorkerServesEveryRequest(idServe, idAlive string) {
+	var ruS, ruA *report.Rule
+	if idServe != "" {
+		ruS = c.R.Rule(idServe, "every publish request a worker takes out of its channel is handed to PublishDistributor.Distribute: in the arm of the worker's select that receives a request, Distribute is reached on every path back to the select (no continue / return in front of it: a failing tap or retained store must not keep the message from the logs of the nodes that host matching subscriptions)", "E2 dominance of the Distribute call over the back edges of the request arm", 1)
+	}
+	if idAlive != "" {
+		ruA = c.R.Rule(idAlive, "a publish worker leaves its loop only in the arm of its select that waits for the context to end: no other return (a worker that returns on a failure branch is never replaced; after twenty such inputs no publish and no will is processed any more, for any client)", "E2 control dependence of every return after the select on the context arm", 1)
+	}
+	any := ruS
+	if any == nil {
+		any = ruA
+	}
+	dist := c.cm(any, "wasp", "PublishDistributor", "Distribute")
+	if dist == nil {
+		return
+	}
+	n := 0
+	for _, f := range c.P.ModFuncs() {
+		dcalls := core.CallsTo(f, dist)
+		if len(dcalls) == 0 || c.P.IsGenerated(f) {
+			continue
+		}
+		d := dcalls[0]
+		// the function that holds the select: f itself, or the one that calls f from its loop
+		selFn := f
+		var viaCall ssa.Instruction
+		hasSelect := func(g *ssa.Function) *ssa.Select {
+			for _, b := range g.Blocks {
+				for _, in := range b.Instrs {
+					if sel, ok := in.(*ssa.Select); ok && len(sel.States) > 1 {
+						recvs := 0
+						for _, st := range sel.States {
+							if st.Dir == types.RecvOnly {
+								recvs++
+							}
+						}
+						if recvs >= 2 {
+							return sel
+						}
+					}
+				}
+			}
+			return nil
+		}
+		sel := hasSelect(f)
+		if sel == nil {
+			for _, site := range c.P.StaticCallers(f) {
+				if s2 := hasSelect(site.Parent()); s2 != nil {
+					sel, selFn, viaCall = s2, site.Parent(), site
+				}
+			}
+		}
+		if sel == nil {
+			continue
+		}
+		n++
+		c.R.Fn(c.fname(f))
+		c.R.Fn(c.fname(selFn))
+		// the arms: idx == k tests on the select's index
+		var idx ssa.Value
+		if sel.Referrers() != nil {
+			for _, r := range *sel.Referrers() {
+				if ex, ok := r.(*ssa.Extract); ok && ex.Index == 0 {
+					idx = ex
+				}
+			}
+		}
+		armTarget := func(k int) *ssa.BasicBlock {
+			for _, b := range selFn.Blocks {
+				iff, ok := b.Instrs[len(b.Instrs)-1].(*ssa.If)
+				if !ok {
+					continue
+				}
+				bo, ok := iff.Cond.(*ssa.BinOp)
+				if !ok || bo.Op != token.EQL || bo.X != idx {
+					continue
+				}
+				if kc, ok := bo.Y.(*ssa.Const); ok && kc.Value != nil && kc.Int64() == int64(k) {
+					return b.Succs[0]
+				}
+			}
+			return nil
+		}
+		doneArm, reqArm := -1, -1
+		for k, st := range sel.States {
+			if st.Dir != types.RecvOnly {
+				continue
+			}
+			if cv, ok := core.Strip(st.Chan).(*ssa.Call); ok && cv.Call.IsInvoke() && cv.Call.Method.Name() == "Done" {
+				doneArm = k
+			} else {
+				reqArm = k
+			}
+		}
+		if ruA != nil {
+			bad := ""
+			var doneT *ssa.BasicBlock
+			if doneArm >= 0 {
+				doneT = armTarget(doneArm)
+			}
+			for _, rb := range selFn.Blocks {
+				if _, isRet := rb.Instrs[len(rb.Instrs)-1].(*ssa.Return); !isRet || !sel.Block().Dominates(rb) {
+					continue
+				}
+				if doneT == nil || !doneT.Dominates(rb) {
+					bad = "the worker returns at " + c.P.Pos(lastPos(rb)) + " outside the arm that waits for its context: that worker is gone for the rest of the broker's life"
+				}
+			}
+			ruA.Check(bad == "", "exits of the worker loop in "+c.fname(selFn), c.where(selFn, selFn), "only in the context arm", bad)
+		}
+		if ruS != nil {
+			bad := ""
+			loop := core.InnermostLoop(core.Loops(selFn), sel.Block())
+			var reqT *ssa.BasicBlock
+			if reqArm >= 0 {
+				reqT = armTarget(reqArm)
+			}
+			switch {
+			case loop == nil || reqT == nil:
+				bad = "the worker's select is not in a loop, or its request arm cannot be identified"
+			case selFn == f:
+				for _, pr := range loop.Header.Preds {
+					if loop.Blocks[pr] && reqT.Dominates(pr) && !d.Instr.Block().Dominates(pr) {
+						bad = "a request taken out of the channel can go back to the select without having been distributed (back edge at " + c.P.Pos(lastPos(pr)) + ")"
+					}
+				}
+			default:
+				// the arm's body is a helper: the helper is called on every path of the arm and distributes on every path
+				for _, pr := range loop.Header.Preds {
+					if loop.Blocks[pr] && reqT.Dominates(pr) && !viaCall.Block().Dominates(pr) {
+						bad = "a request can go back to the select without the helper that distributes it having been called"
+					}
+				}
+				for _, rb := range f.Blocks {
+					if _, isRet := rb.Instrs[len(rb.Instrs)-1].(*ssa.Return); isRet && !d.Instr.Block().Dominates(rb) {
+						bad = c.fname(f) + " can return (" + c.P.Pos(lastPos(rb)) + ") without having called Distribute"
+					}
+				}
+			}
+			ruS.Check(bad == "", "request arm of the worker in "+c.fname(selFn), c.where(selFn, selFn), "Distribute on every path of the arm", bad)
+		}
+	}
+	any.Anchor(n > 0, "a worker that takes publish requests out of a channel and distributes them")
 }
